@@ -50,6 +50,23 @@ class ReaderDomain(Domain):
     def attr_load(self, objval, node, state):
         if is_self_attr(node, "caches"):
             return Opaque("caches")
+        if is_self_attr(node) and node.attr in _init_snapshots(self.prog):
+            # an attribute __init__ set to caches[k]: the cache that was at that place *when the client was constructed*
+            return Opaque("cache#%d@init:%s" % (_init_snapshots(self.prog)[node.attr] + 1, node.attr))
+        if is_self_attr(node) and node.attr in _cache_memory(self.prog):
+            return Opaque("cache-memory:" + node.attr)  # instance state some method fills with cache objects
+        if isinstance(objval, Opaque) and objval.tag.startswith("cache-memory:"):
+            return BoundCall(objval, node.attr)
+        if isinstance(objval, Opaque) and objval.tag.startswith("cache?from:"):
+            return BoundCall(objval, node.attr)
+        if is_self_attr(node) and self.prog is not None:
+            # a read-only property of the class (e.g. `_primary`): its getter, interpreted
+            m = self.prog.method("FallbackClient", node.attr, required=False)
+            if m is not None and any(d.split(".")[-1] in ("property", "cached_property") for d in m.decorators):
+                res = self.inline(node, m, [], {}, state)
+                if res is not None and len(res) == 1 and res[0][0] == "ok" and res[0][2] == state:
+                    return res[0][1]
+                return TOP
         if isinstance(objval, Opaque) and objval.tag.startswith("cache#"):
             return BoundCall(objval, node.attr)
         return TOP
@@ -57,9 +74,19 @@ class ReaderDomain(Domain):
     def subscript_load(self, objval, idxval, node, state):
         if objval == Opaque("caches") and isinstance(idxval, Const) and isinstance(idxval.v, int) and idxval.v >= 0:
             return Opaque("cache#%d" % (idxval.v + 1)), False
+        sl = node.slice
+        if isinstance(objval, Opaque) and objval.tag.startswith("cache-memory:"):
+            return Opaque("cache?from:" + objval.tag[13:]), False
+        if objval == Opaque("caches") and isinstance(sl, ast.Slice) and sl.upper is None and sl.step is None and (sl.lower is None or (isinstance(sl.lower, ast.Constant) and isinstance(sl.lower.value, int) and sl.lower.value >= 0)):
+            return Opaque("caches@%d" % (sl.lower.value if sl.lower is not None else 0)), False  # self.caches[k:]
         return TOP, False
 
     def for_next(self, node, itval, state):
+        if isinstance(itval, Opaque) and itval.tag.startswith("caches@"):
+            k = max(state.get("#pos", 0), int(itval.tag[7:]))
+            if k < 2:
+                return [(Opaque("cache#%d" % (k + 1)), state.set("#pos", k + 1))]
+            return []
         if itval == Opaque("caches"):
             k = state.get("#pos", 0)
             if k < 2:
@@ -68,7 +95,7 @@ class ReaderDomain(Domain):
         return [(TOP, state)]
 
     def for_exhausted(self, node, itval, state):
-        if itval == Opaque("caches"):
+        if itval == Opaque("caches") or (isinstance(itval, Opaque) and itval.tag.startswith("caches@")):
             return state if state.get("#pos", 0) >= 2 else None
         return state
 
@@ -84,13 +111,17 @@ class ReaderDomain(Domain):
         name = call_name(node)
         if name == "getattr" and len(args) == 2 and isinstance(args[0], Opaque) and args[0].tag.startswith("cache#") and isinstance(args[1], Const) and isinstance(args[1].v, str):
             return [("ok", BoundCall(args[0], args[1].v), state)]
+        if isinstance(fval, BoundCall) and fval.obj.tag.startswith("cache-memory:"):
+            if fval.attr in ("pop", "get", "popitem", "setdefault", "__getitem__"):
+                return [("ok", Opaque("cache?from:" + fval.obj.tag[13:]), state)]  # a remembered cache (or the default given)
+            return [("ok", TOP, state)]
         if isinstance(fval, BoundCall):
             calls = state.get("#calls", ())
             n = len(calls)
             answer = self.script[n] if n < len(self.script) else "miss"
             rec = (fval.obj.tag, fval.attr, tuple(args), tuple(sorted(kwargs.items())))
             st = state.set("#calls", calls + (rec,))
-            val = {"hit": Opaque("hit-value"), "hit-falsy": Const(b"")}.get(answer, self.miss_value)
+            val = {"hit": Opaque("hit-value"), "hit-falsy": Const(b""), "unknown": TOP}.get(answer, self.miss_value)
             return [("ok", val, st)]
         if isinstance(fval, FuncRef):
             f = self.prog.module("pymemcache/fallback.py").functions.get(fval.name)
@@ -110,6 +141,8 @@ class ReaderDomain(Domain):
                 res = self.inline(node, m, args, kwargs, state)
                 if res is not None:
                     return res
+        if fval is TOP and isinstance(node.func, ast.Attribute):
+            self.unknown_calls = getattr(self, "unknown_calls", 0) + 1  # a method call on a receiver the domain lost
         return [("ok", TOP, state)]
 
 
@@ -140,45 +173,53 @@ def run(chk):
             continue
         n_w += 1
         cf = prog.method("Client", name)
-        calls = [c for c in walk_no_nested(f.node) if isinstance(c, ast.Call)]
-        loops = [n for n in walk_no_nested(f.node) if isinstance(n, (ast.For, ast.While, ast.ListComp, ast.GeneratorExp, ast.SetComp, ast.DictComp))]
+        # the method interpreted with two caches and its parameters as symbols: the calls it makes on caches
+        dom = ReaderDomain(prog, f, ("unknown", "unknown", "unknown"), NONE)
+        penv = {p.name: Opaque("param:" + p.name) for p in f.params if p.name != "self"}
+        outs = Interp(dom, f.node, prog).run(Env(penv))
         problems = []
-        if loops:
-            problems.append("it iterates (`%s`): a mutating call could reach a fallback cache" % node_src(loops[0], 60))
-        cache_calls = [c for c in calls if isinstance(c.func, ast.Attribute) and "caches" in node_src(c.func)]
-        other_cache_use = [n for n in walk_no_nested(f.node) if is_self_attr(n, "caches") and not any(n in list(ast.walk(c.func)) for c in cache_calls)]
-        if len(cache_calls) != 1:
-            problems.append("it makes %d calls on caches (exactly one expected)" % len(cache_calls))
-        if other_cache_use:
-            problems.append("self.caches is also used as `%s`" % node_src(getattr(other_cache_use[0], "_parent", other_cache_use[0]), 60))
-        for c in cache_calls[:1]:
-            fnc = c.func
-            recv = fnc.value
-            ok_recv = isinstance(recv, ast.Subscript) and is_self_attr(recv.value, "caches") and isinstance(recv.slice, ast.Constant) and recv.slice.value == 0
-            if not ok_recv:
-                problems.append("the receiver is `%s`, not self.caches[0]" % node_src(recv))
-            if fnc.attr != name:
-                problems.append("it calls .%s instead of .%s" % (fnc.attr, name))
-            # arguments: map onto Client.<name>'s parameters
-            cpos = [p.name for p in cf.pos_params()]
-            mine = [p.name for p in f.pos_params()]
-            seen = {}
-            for i, a in enumerate(c.args):
-                if i >= len(cpos):
-                    problems.append("too many positional arguments for Client.%s" % name)
-                    break
-                if not (isinstance(a, ast.Name) and a.id == cpos[i]):
-                    problems.append("positional argument %d is `%s` but Client.%s expects `%s` there" % (i + 1, node_src(a), name, cpos[i]))
-                else:
-                    seen[a.id] = seen.get(a.id, 0) + 1
-            for k in c.keywords:
-                if k.arg is None or not (isinstance(k.value, ast.Name) and k.value.id == k.arg) or cf.param(k.arg) is None:
-                    problems.append("keyword `%s=%s` does not forward a same-named parameter" % (k.arg, node_src(k.value)))
-                else:
-                    seen[k.arg] = seen.get(k.arg, 0) + 1
-            for pn in mine:
-                if seen.get(pn, 0) != 1:
-                    problems.append("parameter `%s` is forwarded %d times" % (pn, seen.get(pn, 0)))
+        cpos = [p.name for p in cf.pos_params()]
+        mine = [p.name for p in f.pos_params()]
+        exits = outs.of("ret") + outs.of("exc")
+        undecided = None
+        for s_, v_, t_ in exits:
+            cc = s_.get("#calls", ())
+            if getattr(dom, "unknown_calls", 0):
+                undecided = "it calls a method on a receiver this analysis cannot trace to self.caches"
+                if not cc:
+                    continue
+            if len(cc) != 1:
+                problems.append("it makes %d calls on caches (exactly one expected)%s" % (len(cc), "".join("; a mutating call reaches %s, a fallback cache" % c[0].replace("cache#", "cache number ") for c in cc if c[0] != "cache#1")))
+            for tag, attr, args, kws in cc[:1]:
+                if tag.startswith("cache?from:"):
+                    problems.append("the receiver comes out of self.%s, which %s with whichever cache answered a read: the mutating call can reach a fallback cache" % (tag[11:], _cache_memory(prog)[tag[11:]]))
+                elif "@init:" in tag:
+                    problems.append("the receiver is self.%s, the cache that was at position %s when the client was constructed, not the first of self.caches at the time of the call: once the (public, caller-owned) cache list is re-arranged, writes go to one cache and reads start at another" % (tag.split(":")[1], tag[6:].split("@")[0]))
+                elif tag != "cache#1":
+                    problems.append("the receiver is cache number %s of self.caches, not self.caches[0]" % tag[6:])
+                if attr != name:
+                    problems.append("it calls .%s instead of .%s" % (attr, name))
+                seen = {}
+                for i_, a in enumerate(args):
+                    if i_ >= len(cpos):
+                        problems.append("too many positional arguments for Client.%s" % name)
+                        break
+                    if a != Opaque("param:" + cpos[i_]):
+                        problems.append("positional argument %d is %s but Client.%s expects `%s` there" % (i_ + 1, "`%s`" % a.tag[6:] if isinstance(a, Opaque) and a.tag.startswith("param:") else a, name, cpos[i_]))
+                    else:
+                        seen[cpos[i_]] = seen.get(cpos[i_], 0) + 1
+                for k, kv in kws:
+                    if k.startswith("**") or kv != Opaque("param:" + k) or cf.param(k) is None:
+                        problems.append("keyword `%s=%s` does not forward a same-named parameter" % (k, "`%s`" % kv.tag[6:] if isinstance(kv, Opaque) and kv.tag.startswith("param:") else kv))
+                    else:
+                        seen[k] = seen.get(k, 0) + 1
+                for pn in mine:
+                    if seen.get(pn, 0) != 1:
+                        problems.append("parameter `%s` is forwarded %d times" % (pn, seen.get(pn, 0)))
+        problems = list(dict.fromkeys(problems))
+        if undecided and not problems:
+            r1.undecided("FallbackClient.%s:writer" % name, "FallbackClient.%s: %s" % (name, undecided))
+            continue
         r1.expect(not problems, "FallbackClient.%s -> self.caches[0].%s(%s)" % (name, name, ", ".join(p.name for p in f.pos_params())), "FallbackClient.%s:writer" % name, "FallbackClient.%s: %s" % (name, "; ".join(problems)), fn=f, node=f.node)
     r1.floor("mutating methods", n_w, 11)
 
@@ -236,6 +277,59 @@ def run(chk):
         r3.expect(hit_problem is None, "FallbackClient.%s: the miss value %s is not taken for a hit" % (name, rules_C07.show(miss)), "FallbackClient.%s:hit-test-vs-miss" % name, "FallbackClient.%s: %s" % (name, hit_problem), fn=f, node=f.node)
     r2.floor("read methods", n_r, 4)
     chk.assume("every cache passed to FallbackClient has the Client interface and Client's miss conventions")
+
+
+def _init_snapshots(prog):
+    """{attribute: k} for every `self.<attribute> = caches[k]` / `self.caches[k]` in FallbackClient.__init__."""
+    if prog is None:
+        return {}
+    memo = prog.__dict__.get("_fb_snapshots")
+    if memo is None:
+        memo = {}
+        init = prog.method("FallbackClient", "__init__", required=False)
+        for n in ast.walk(init.node) if init is not None else ():
+            if isinstance(n, ast.Assign) and isinstance(n.value, ast.Subscript) and isinstance(n.value.slice, ast.Constant) and isinstance(n.value.slice.value, int) and n.value.slice.value >= 0:
+                src = n.value.value
+                if (isinstance(src, ast.Name) and src.id == "caches") or is_self_attr(src, "caches"):
+                    for t in n.targets:
+                        if is_self_attr(t):
+                            memo[t.attr] = n.value.slice.value
+        prog.__dict__["_fb_snapshots"] = memo
+    return memo
+
+
+def _cache_memory(prog):
+    """{attribute: 'FallbackClient.<method> fills'} for instance attributes (other than `caches`) into which a method
+    stores a cache object: a name bound by iterating self.caches or by subscripting it."""
+    if prog is None:
+        return {}
+    memo = prog.__dict__.get("_fb_cache_memory")
+    if memo is None:
+        memo = {}
+        fb = prog.cls("FallbackClient")
+        for f in fb.methods.values():
+            cache_names = set()
+            for n in ast.walk(f.node):
+                if isinstance(n, (ast.For, ast.comprehension)) and isinstance(n.target, ast.Name) and any(is_self_attr(x, "caches") for x in ast.walk(n.iter)):
+                    cache_names.add(n.target.id)
+                if isinstance(n, ast.Assign) and isinstance(n.value, ast.Subscript) and is_self_attr(n.value.value, "caches"):
+                    cache_names |= {t.id for t in n.targets if isinstance(t, ast.Name)}
+            def is_cache(v):
+                return (isinstance(v, ast.Name) and v.id in cache_names) or (isinstance(v, ast.Subscript) and is_self_attr(v.value, "caches"))
+            for n in ast.walk(f.node):
+                tgt = None
+                if isinstance(n, ast.Assign) and is_cache(n.value):
+                    for t in n.targets:
+                        if isinstance(t, ast.Subscript) and is_self_attr(t.value):
+                            tgt = t.value.attr
+                        elif is_self_attr(t) and f.name != "__init__":
+                            tgt = t.attr
+                elif isinstance(n, ast.Call) and isinstance(n.func, ast.Attribute) and is_self_attr(n.func.value) and n.func.attr in ("append", "add", "setdefault", "insert", "__setitem__") and any(is_cache(a) for a in n.args):
+                    tgt = n.func.value.attr
+                if tgt is not None and tgt != "caches":
+                    memo[tgt] = "FallbackClient.%s fills" % f.name
+        prog.__dict__["_fb_cache_memory"] = memo
+    return memo
 
 
 def _abstract(t):
